@@ -56,7 +56,7 @@ PROCS = ['validate', 'validate_schema', 'deduplicate', 'printer', 'set_type', 's
          'filter_rows', 'unpivot', 'concatenate', 'delete_resource', 'update_resource',
          'update_schema', 'set_primary_key', 'parallelize', 'add_computed_field', 'add_field',
          'find_replace', 'delete_fields', 'select_fields', 'rename_fields', 'load_tuple',
-         'load_package', 'checkpoint']
+         'load_package', 'checkpoint', 'rename_fields_string_pk']
 
 
 SEQ_PROCS = ('delete_resource', 'concatenate', 'filter_rows', 'deduplicate', 'sort_rows', 'update_resource', 'printer',
@@ -119,6 +119,10 @@ def build(proc, s, log):
         st = d.select_fields(['b', 'id'], resources=s)
     elif proc == 'rename_fields':
         st = d.rename_fields({'c': 'cc'}, resources=s)
+    elif proc == 'rename_fields_string_pk':
+        # every resource declares its primary key in the single-name form: the unselected ones keep it as it is
+        pre = [d.update_schema(None, primaryKey='id')]
+        st = d.rename_fields({'id': 'ident'}, resources=s)
     else:
         raise KeyError(proc)
     return pre, st
